@@ -49,7 +49,8 @@ ModelAct(ev) ==
       [] ev.e = "SwapFeats"      -> SwapFeats(ev.i)
       [] ev.e = "SetForm"        -> SetForm(ev.v)
       [] ev.e = "DropForm"       -> DropForm
-      [] ev.e = "AddField"       -> AddField(ev.var, ev.v)
+      [] ev.e = "AddField"       -> AddField(ev.var, ev.m, ev.v)
+      [] ev.e = "RetypeField"    -> RetypeField(ev.i)
       [] ev.e = "RemoveField"    -> RemoveField(ev.i)
       [] ev.e = "RenameField"    -> RenameField(ev.i, ev.var)
       [] ev.e = "AddValue"       -> AddValue(ev.i, ev.v)
